@@ -3,10 +3,28 @@ Used by generators (to aim damage at the right files), by monitors (to judge the
 output without the model) and as the 'other implementation' of C17."""
 import hashlib, base64, json
 
-ALGOS = ["sha1", "sha256", "sha384", "sha512"]          # xxh3 has no independent implementation here
+ALGOS = ["sha1", "sha256", "sha384", "sha512"]          # algorithms with an independent implementation (hashlib)
+ALL_ALGOS = ALGOS + ["xxh3"]                              # xxh3: digests come from the library itself (oracle)
+
+_XX = {}
+
+
+def xxh3(data: bytes) -> bytes:
+    """XXH3-128 through the harness' `digest` op (no independent implementation available offline)."""
+    if data not in _XX:
+        import subprocess, tempfile, shutil, os
+        from . import common as C
+        d = tempfile.mkdtemp(prefix="xx", dir=C.scratch_root())
+        p = subprocess.run([C.drive_bin("async-std"), os.path.join(d, "s")], input=f"digest xxh3 x{data.hex()}\n".encode(),
+                           stdout=subprocess.PIPE, stderr=subprocess.DEVNULL)
+        shutil.rmtree(d, ignore_errors=True)
+        _XX[data] = bytes.fromhex(p.stdout.decode().split()[1][1:])
+    return _XX[data]
 
 
 def digest(algo: str, data: bytes) -> bytes:
+    if algo == "xxh3":
+        return xxh3(data)
     return hashlib.new(algo, data).digest()
 
 
